@@ -265,4 +265,15 @@ void run_C10(void) {
     ops_lifecycle_case("C10 objects", LKM_BBC | LKM_BAA | LKM_BBB, (rep % 4) == 3 ? DISP_GENERIC : DISP_NATIVE, 160, 0, rep, "lifecycle_uses");
   for (unsigned rep = 0; rep < (G.thorough ? 12u : 6u); rep++)
     ops_lifecycle_case("C10 objects", LKM_BBC | LKM_BAA | LKM_BBB, DISP_NATIVE, 0, (G.thorough && rep < 3) ? 66000 : 300 + 57 * (int)rep, rep, "lifecycle_uses");
+  // the entry points of this property called a second time on the SAME buffers holding other data (new values, two limbs exchanged,
+  // one word moved between limbs): must equal a fresh call on that data (results or operands remembered by address)
+  {
+    static const char* const RNAMES[] = {"q120_vec_mat1col_product_baa_ref", "q120_vec_mat1col_product_baa_avx2", "q120_vec_mat1col_product_bbb_ref", "q120_vec_mat1col_product_bbb_avx2", "q120_vec_mat1col_product_bbc_ref", "q120_vec_mat1col_product_bbc_avx2", "q120x2_vec_mat1col_product_bbc_ref", "q120x2_vec_mat1col_product_bbc_avx2", "q120x2_vec_mat2cols_product_bbc_ref", "q120x2_vec_mat2cols_product_bbc_avx2", "q120_b_from_znx64_simple", "q120_c_from_znx64_simple", "q120_c_from_b_simple", "q120_b_to_znx128_simple", "q120_add_bbb_simple", "q120_add_ccc_simple", "q120x2_extract_1blk_from_contiguous_q120b_ref", "q120x2_extract_1blk_from_q120b_ref", "q120x2_extract_1blk_from_q120c_ref", "q120x2b_save_1blk_to_q120b_ref"};
+    static const uint64_t RN[] = {2, 16, 64, 1024};
+    for (size_t i = 0; i < ARRAY_LEN(RN); i++)
+      for (int cfg = DISP_NATIVE; cfg >= DISP_GENERIC; cfg--) {
+        if (cfg == DISP_GENERIC && 1) continue;
+        ops_recontent_case("C10 entry points", RNAMES, (int)ARRAY_LEN(RNAMES), RN[i], cfg, G.thorough ? 40 : 6, (unsigned)i, "same_buffers_other_data_calls");
+      }
+  }
 }
